@@ -144,4 +144,67 @@ def expectedDeser (O : Oracles) (opts : DeserOpts) (cls : FieldDecl) (d : PyVal)
     | .ok x => some x
     | .error _ => none
 
+/-! ### the fragment on which "deserialization = constructor ∘ documented lifting" is proved -/
+
+mutual
+/-- scalars with every constraint, enums, Array / Deque / Tuple (homogeneous or positional, without
+    uniqueItems) and nested Structure classes, at any depth -/
+def exactDecl : FieldDecl → Bool
+  | .number _ => true
+  | .integer _ => true
+  | .float _ => true
+  | .string _ _ _ => true
+  | .boolean => true
+  | .enumLit _ => true
+  | .enumCls _ _ => true
+  | .seqOf _ f sz => !sz.uniq && exactDecl f
+  | .seqPos _ fs _ sz => !sz.uniq && exactAll fs
+  | .tupleOf f u => !u && exactDecl f
+  | .tuplePos fs u => !u && exactAll fs
+  | .struct c fields _ =>
+    !c.inline && c.accepts.contains c.name && decide ((fields.map (·.1)).Nodup) && exactFields fields
+  | .seqAny _ _ => false
+  | .setAny _ _ => false
+  | .setOf _ _ _ => false
+  | .mapAny _ => false
+  | .mapOf _ _ _ => false
+  | .anyOf _ => false
+  | .oneOf _ => false
+  | .allOf _ => false
+  | .notF _ => false
+  | .noneF => false
+  | .anything => false
+termination_by structural f => f
+def exactAll : List FieldDecl → Bool
+  | [] => true
+  | f :: fs => exactDecl f && exactAll fs
+termination_by structural fs => fs
+def exactFields : List (String × FieldDecl) → Bool
+  | [] => true
+  | (_, f) :: rest => exactDecl f && exactFields rest
+termination_by structural fs => fs
+end
+
+mutual
+/-- a JSON document: null / bool / number / string / array / object with string keys -/
+def strictJson : PyVal → Bool
+  | .none => true
+  | .bool _ => true
+  | .int _ => true
+  | .float _ => true
+  | .str _ => true
+  | .list xs => strictJsonList xs
+  | .dict kvs => strictJsonPairs kvs
+  | _ => false
+termination_by structural v => v
+def strictJsonList : List PyVal → Bool
+  | [] => true
+  | x :: xs => strictJson x && strictJsonList xs
+termination_by structural xs => xs
+def strictJsonPairs : List (PyVal × PyVal) → Bool
+  | [] => true
+  | (k, v) :: rest => (match k with | .str _ => true | _ => false) && strictJson v && strictJsonPairs rest
+termination_by structural xs => xs
+end
+
 end Typedpy
